@@ -1132,6 +1132,11 @@ def c14(run):
     cases = r.json_prints("CASE")
     if len(cases) != 10368:
         raise Machinery("GrpcMC enumerated %d cases, expected the full product of 10368" % len(cases))
+    # two interceptors of the package chained (each gates on its own limiter): 1536 cases of the contract ChainG
+    chain = r.json_prints("CHAIN")
+    if len(chain) != 1536:
+        raise Machinery("GrpcMC enumerated %d chained cases, expected 1536" % len(chain))
+    cases = cases + chain
     indir = os.path.join(run.scratch, "in")
     os.makedirs(indir, exist_ok=True)
     vlib.write_ndjson(os.path.join(indir, "grpc_cases.ndjson"), cases)
@@ -1142,8 +1147,9 @@ def c14(run):
     run.traces += rep["cases"]
     run.sample({"case": cases[0]})
     for m in rep["mismatches"] or []:
-        run.report("gRPC %s (grant=%s err=%s classifier=%s, custom=%s): observed %s, the contract fixes %s" % (
-            m["op"]["kind"], m["op"]["grant"], m["op"]["err"], m["op"]["cls"], m["cfg"], json.dumps(m["got"]), json.dumps(m["expected"])),
+        run.report("gRPC %s%s (grant=%s err=%s classifier=%s, custom=%s): observed %s, the contract fixes %s" % (
+            m["op"]["kind"], " behind an outer interceptor (outer grant=%s)" % m["op"]["ogrant"] if "ogrant" in m["op"] else "",
+            m["op"]["grant"], m["op"]["err"], m["op"]["cls"], m["cfg"], json.dumps(m["got"]), json.dumps(m["expected"])),
             {"case": m, "rerun": "bin/check C14"}, {"kind": m["op"]["kind"], "grant": m["op"]["grant"]})
     n = 20000 if th else 3000
     out, _ = run.go("^TestGrpcRandom$", env={"VERIF_N": n})
